@@ -490,6 +490,10 @@ func (m *Monitors) sample(n *Node) {
 		}
 	}
 	m.Stats["C13 samples"]++
+	if nm.lastRoundH >= 0 && int64(h) != nm.lastRoundH {
+		m.violate("C13", "state-height-differs-from-the-last-started-round", "node %s is at height %d but the last new-round callback was for height %d", n.Id, h, nm.lastRoundH)
+		m.violate("C17", "height-without-its-term", "node %s: the observable height is %d while the installed term is the one of height %d: messages of height %d now reach a term of another height", n.Id, h, nm.lastRoundH, h)
+	}
 	nm.lastH, nm.lastV, nm.sampled = h, v, true
 }
 
@@ -748,6 +752,13 @@ func (m *Monitors) onStore(n *Node, nm *nodeMon, e *spi.Event) {
 	m.Stats["C08 stores judged"]++
 	nodeH := uint64(n.St.Height())
 	c := w.Comm(e.H)
+	m.Stats["C17 handled messages judged"]++
+	if nm.lastRoundH >= 0 && int64(e.H) != nm.lastRoundH {
+		m.violate("C17", "message-handled-by-a-term-of-another-height", "node %s: a %s of height %d was handled although the installed term is the one of height %d", n.Id, e.Kind, e.H, nm.lastRoundH)
+	}
+	if !c.Has(n.Id) {
+		m.violate("C17", "message-reached-protocol-logic-of-a-node-outside-the-committee", "node %s is not in the committee of height %d but a %s of that height reached its protocol logic and was stored", n.Id, e.H, e.Kind)
+	}
 	bad := func(rule, format string, a ...interface{}) {
 		m.violate("C08", "stored:"+rule+":"+e.Kind.String(), "node %s "+format, append([]interface{}{n.Id}, a...)...)
 	}
